@@ -58,6 +58,10 @@ func NewRunFS(R *vcommon.Report, prop string, k Knobs, caseIdx int, rng *rand.Ra
 	if setup != nil {
 		setup(r)
 	}
+	if r.Cfg.FlushGate {
+		r.gate = &flushGate{}
+		r.fs = gateFS{FS: r.fs, g: r.gate, dir: r.Dir + "/"}
+	}
 	r.opts = MakeOptions(r.Cfg, r.fs, r.Ev)
 	if r.OptsHook != nil {
 		r.OptsHook(r.opts)
@@ -92,6 +96,7 @@ func (r *Run) Execute() bool {
 			r.audit("periodic")
 		}
 	}
+	r.openGate()
 	if !r.failed {
 		r.audit("final")
 	}
@@ -100,6 +105,13 @@ func (r *Run) Execute() bool {
 }
 
 func (r *Run) finish() {
+	r.openGate()
+	if r.gate != nil {
+		r.gate.mu.Lock()
+		r.count("flush_gate_blocked_creates", r.gate.blocked)
+		r.count("flush_gate_timeouts", r.gate.timeouts)
+		r.gate.mu.Unlock()
+	}
 	// report coverage facts
 	for k, v := range r.Stats {
 		r.R.Count(k, v)
@@ -145,6 +157,7 @@ func (r *Run) CloseAll() { r.closeAll() }
 
 // closeAll closes every object and the DB; Close errors are violations (C47).
 func (r *Run) closeAll() {
+	r.openGate()
 	if r.db == nil {
 		return
 	}
@@ -207,29 +220,35 @@ func (r *Run) quiesce() {
 
 func (r *Run) oneStep() {
 	type choice struct {
-		w int
-		f func()
+		w    int
+		f    func()
+		safe bool // known not to wait for a flush or compaction (flush gate)
 	}
 	var cs []choice
 	add := func(w int, f func()) {
 		if w > 0 {
-			cs = append(cs, choice{w, f})
+			cs = append(cs, choice{w, f, false})
 		}
 	}
-	add(30, r.stepWrite)
-	add(8, r.stepImmediateBatch)
-	add(6, r.stepGet)
+	addSafe := func(w int, f func()) {
+		if w > 0 {
+			cs = append(cs, choice{w, f, true})
+		}
+	}
+	addSafe(30, r.stepWrite)
+	addSafe(8, r.stepImmediateBatch)
+	addSafe(6, r.stepGet)
 	if r.K.Batches {
-		add(10, r.stepBatch)
+		addSafe(10, r.stepBatch)
 	}
 	if r.K.Snapshots {
-		add(5, r.stepSnapshot)
+		addSafe(5, r.stepSnapshot)
 	}
 	if r.K.Iters {
-		add(10, r.stepIterBurst)
+		addSafe(10, r.stepIterBurst)
 	}
 	if r.K.LongIters {
-		add(5, r.stepLongIter)
+		addSafe(5, r.stepLongIter)
 	}
 	if r.K.Maint {
 		if r.K.MaintHeavy {
@@ -242,18 +261,24 @@ func (r *Run) oneStep() {
 		add(1, r.stepReopen)
 	}
 	if r.K.Ingest {
+		w := 5
 		if r.K.IngestHeavy {
-			add(18, r.stepIngest)
-		} else {
-			add(5, r.stepIngest)
+			w = 18
 		}
+		if r.gate != nil && r.gate.isClosed() {
+			w *= 3 // order more ingests against the queued flushables
+		}
+		addSafe(w, r.stepIngest)
 	}
 	if r.K.Excise {
+		w := 2
 		if r.K.IngestHeavy {
-			add(6, r.stepExcise)
-		} else {
-			add(2, r.stepExcise)
+			w = 6
 		}
+		if r.gate != nil && r.gate.isClosed() {
+			w *= 3
+		}
+		addSafe(w, r.stepExcise)
 	}
 	if r.K.EFOS {
 		if r.K.EFOSHeavy {
@@ -283,6 +308,7 @@ func (r *Run) oneStep() {
 	x := r.rng.IntN(tot)
 	for _, c := range cs {
 		if x < c.w {
+			r.gateStep(c.safe)
 			c.f()
 			return
 		}
